@@ -342,6 +342,19 @@ func traceTree(h *H, kind string, dir string) sTree {
 		t["u1"] = sNode{kind: 'f', content: h.bytes(600*1024 + 11), perm: 0o644, mtime: T}
 		t["u2"] = sNode{kind: 'f', content: h.bytes(1500*1024 + 3), perm: 0o644, mtime: T}
 		t["u3"] = sNode{kind: 'f', content: h.bytes(300 * 1024), perm: 0o644, mtime: T}
+	case "longlinks":
+		// a file list that is large because of its link targets: several hundred KiB of list, entries of several KiB
+		// (entries near the largest an entry can be — a deep path plus a long target — in varied sizes, so that
+		// whatever unit the sender writes the list in is filled to every residue)
+		deep := ""
+		for d := 0; d < 9; d++ {
+			deep += strings.Repeat(string(rune('a'+d)), 200+h.rng.Intn(40)) + "/"
+			t[strings.TrimSuffix(deep, "/")] = sNode{kind: 'd', perm: 0o755, mtime: T}
+		}
+		for i := 0; i < 160; i++ {
+			t[fmt.Sprintf("%sl%03d", deep, i)] = sNode{kind: 'l', target: strings.Repeat("t", 3500+h.rng.Intn(590)) + fmt.Sprint(i)}
+		}
+		t["plain"] = sNode{kind: 'f', content: h.bytes(1000), perm: 0o644, mtime: T}
 	case "mixed":
 		for i := 0; i < 60; i++ {
 			t[fmt.Sprintf("m%02d", i)] = sNode{kind: 'f', content: h.bytes(h.pick(0, 1, 699, 700, 701, 5000)), perm: 0o644, mtime: T}
@@ -360,11 +373,12 @@ func suiteTrace(h *H) {
 	defer os.RemoveAll(base)
 	caps := []int{0, 1, 17, 64 * 1024, -1}
 	caseNo := 0
-	for _, kind := range []string{"tiny", "literal", "sums", "mixed", "unrelated"} {
+	for _, kind := range []string{"tiny", "literal", "sums", "mixed", "unrelated", "longlinks"} {
 		src := traceTree(h, kind, "")
 		// the prior destination: edited copies (so that checksum lists and delta data flow) — no -p in half of the runs
 		dstTree := sTree{}
-		for p, n := range src {
+		for _, p := range src.keys() {
+			n := src[p]
 			if kind == "unrelated" {
 				m := n
 				m.mtime = n.mtime - 100
@@ -438,6 +452,9 @@ func suiteTrace(h *H) {
 						v = "FAIL[C08] " + out
 					case out != "ok":
 						v = "FAIL[C18] transfer failed over a buffering transport: " + out
+						if strings.Contains(out, "max message size") {
+							v += " || FAIL[C17] a frame the peer sent exceeds the size the reader accepts"
+						}
 					default:
 						after := snapshot(dstRoot)
 						for p, n := range src {
